@@ -103,4 +103,33 @@ example :
      c.returned = [] ∧ c.canceled = 1 ∧ c.st.emitted = [] ∧ c.st.recvProcessed = false) := by
   decide
 
+/-- Wave 5 — delivery does not depend on the tracker's history. Sequence numbers are NOT unique
+over the life of a tracker (the remote sender's counter restarts whenever ITS tracker is
+re-created while this one persists), so nothing may be concluded from "this number was handed over
+and acknowledged before". For EVERY state `s` (no reachability hypothesis: whatever was received,
+delivered, acknowledged, opened or closed before) an authentic message accepted from the relay is
+pending and unprocessed, the very next iteration of `Recv` returns exactly it whatever the
+caller's context, and no acknowledgement is emitted for it before that. -/
+theorem accepted_is_returned_next (s : State) (m : Msg) (sel : Sel) :
+    (recvMsg s m true true).recv = some m ∧ (recvMsg s m true true).recvProcessed = false ∧
+    (recvIter (recvMsg s m true true) sel).2 = .returned m := by
+  simp [recvIter, recvMsg]
+
+theorem accepted_not_acked_before_recv (s : State) (m : Msg) (e k : Nat) :
+    (txLoop (recvMsg s m true true)).2 ≠ some (.ack e k) := by
+  cases h : s.open_ with
+  | none => simp [txLoop, recvMsg, h]
+  | some e' =>
+    cases ho : s.out with
+    | none => simp [txLoop, recvMsg, h, ho]
+    | some o => by_cases hc : s.outCancel <;> by_cases hs : s.outSent <;> simp [txLoop, recvMsg, h, ho, hc, hs]
+
+/-- Non-vacuity: two conversations whose messages carry the SAME sequence number 1 (different
+messages): both are returned by `Recv`, each acknowledged after it was returned. -/
+example :
+    (let c := crun [(.opened 2, .woken), (.recvMsg ⟨1, 10⟩ true true, .woken), (.recvStep, .woken), (.txLoop, .woken),
+                    (.opened 3, .woken), (.recvMsg ⟨1, 11⟩ true true, .woken), (.txLoop, .woken), (.recvStep, .ctxDone), (.txLoop, .woken)]
+     c.returned = [⟨1, 11⟩, ⟨1, 10⟩] ∧ c.st.emitted = [.ack 3 1, .ack 2 1]) := by
+  decide
+
 end Bifrost.Props.C21
